@@ -79,7 +79,48 @@ fn decls() -> Vec<Decl> {
                 ("+Y14", T::Unit), ("+Y15", T::Unit), ("+Y16", b()),
             ],
         },
+        // an empty type and a type with a constructor that no value can have (only used by the `uninhabited` family)
+        Decl { name: "Void", ctors: vec![] },
+        Decl { name: "DeadLive", ctors: vec![("+Dead", T::Data(11)), ("+Live", b())] },
     ]
+}
+
+/// Matches over types with an uninhabited component: (name, type, arms). Brute force sees that `+Dead(_)` and a tuple
+/// with a `Void` component denote no value at all.
+fn uninhabited_cases() -> Vec<(&'static str, T, Vec<P>)> {
+    let b = || T::Data(0);
+    let live = |p: P| P::Ctor(12, 1, Box::new(p));
+    let dead = |p: P| P::Ctor(12, 0, Box::new(p));
+    let t = || P::Ctor(0, 0, Box::new(P::Unit));
+    vec![
+        ("DeadLive", T::Data(12), vec![live(P::Wild)]),
+        ("DeadLive", T::Data(12), vec![live(t())]),
+        ("DeadLive", T::Data(12), vec![dead(P::Wild), live(P::Wild)]),
+        ("DeadLive", T::Data(12), vec![live(t()), live(P::Ctor(0, 1, Box::new(P::Unit)))]),
+        ("VoidxBool", T::Prod(vec![T::Data(11), b()]), vec![P::Tuple(vec![P::Wild, t()])]),
+        ("VoidxBool", T::Prod(vec![T::Data(11), b()]), vec![]),
+        ("BoolxVoid", T::Prod(vec![b(), T::Data(11)]), vec![P::Tuple(vec![t(), P::Wild])]),
+        ("Void", T::Data(11), vec![]),
+        ("OptDeadLive-control", T::Data(12), vec![P::Wild]),
+    ]
+}
+
+fn run_uninhabited(_cfg: &Cfg, index: u64, stats: &mut Stats) {
+    let ds = decls();
+    let cases = uninhabited_cases();
+    let (tname, t, arms) = &cases[index as usize];
+    let arms_text = arms.iter().map(|p| pattern_text(p, t, &ds)).collect::<Vec<_>>().join(" | ");
+    stats.nontrivial(format!("uninhabited/{}/{}", tname, arms_text).as_bytes());
+    stats.cover("uninhabited_cases", &format!("{}: {}", tname, if arms_text.is_empty() { "<no arm>" } else { &arms_text }));
+    if let Some((signature, problem, sources)) = judge(tname, t, arms, stats) {
+        stats.violation(Violation {
+            signature,
+            tags: vec![format!("type:{}", tname), "uninhabited-component-type".to_string()],
+            generator: "uninhabited".into(),
+            index,
+            detail: json!({"type": tname, "arms": arms_text, "problem": problem, "sources": sources.to_json()}),
+        });
+    }
 }
 
 fn wide_catalogue() -> Vec<(&'static str, T)> {
@@ -453,6 +494,7 @@ fn generators(cfg: &Cfg) -> Vec<Generator> {
         Generator { name: "random", total: cfg.tier.pick(1_500, 50_000), run: run_random, case_cpu_limit_s: 120 },
         Generator { name: "comatch", total: comatch_cases().len() as u64, run: run_comatch, case_cpu_limit_s: 60 },
         Generator { name: "wide", total: cfg.tier.pick(600, 20_000), run: run_wide, case_cpu_limit_s: 120 },
+        Generator { name: "uninhabited", total: uninhabited_cases().len() as u64, run: run_uninhabited, case_cpu_limit_s: 60 },
     ]
 }
 
